@@ -6,6 +6,7 @@ import VlsModel.Gen.FnKvvKeys
 import VlsModel.Gen.FnKvvPass
 import VlsModel.Gen.FnNodePrune
 import VlsModel.Gen.FnNodeForget
+import VlsModel.Gen.FnNodeNewChannel
 import VlsModel.Gen.FnTrackerEntry
 import VlsModel.Gen.FnTrackerEntryRestore
 import VlsModel.Model.Backup
@@ -836,4 +837,43 @@ example :
       (0 : Nat) (0 : Nat) = .ok (([1, 2], 3, 9, 1), [(5, (6, 7))]) := rfl
 
 end TrackerEntryRestore
+section NewChannel
+open VlsModel.Gen.FnNodeNewChannel
+variable {ChannelId ChannelSlot PublicKey Persist Policy InMemorySigner WeakNode Secp256k1 : Type} [DecidableEq ChannelId]
+  (bh : Node ChannelId ChannelSlot PublicKey Persist → Nat)
+  (chs : Node ChannelId ChannelSlot PublicKey Persist → List (ChannelId × ChannelSlot))
+  (pol : Policy) (maxc : Policy → Nat)
+  (keys : ChannelId → Nat → Node ChannelId ChannelSlot PublicKey Persist → InMemorySigner)
+  (dg : Node ChannelId ChannelSlot PublicKey Persist → WeakNode) (secp : Secp256k1)
+  (mkStub : ChannelStub WeakNode Secp256k1 InMemorySigner ChannelId → ChannelSlot)
+  (nc : Persist → PublicKey → ChannelStub WeakNode Secp256k1 InMemorySigner ChannelId → Option Unit)
+  (self arc : Node ChannelId ChannelSlot PublicKey Persist) (cid : ChannelId)
+
+/-- **C11_fn_find_or_create_channel_persist**: whenever `Node::find_or_create_channel` (`new_channel`) returns `Ok` for an id the
+    channel map did not hold, the stub it returns — initial id = the requested id, block height = the tracker's — is the stub
+    `persister.new_channel(node id, ·)` was handed and acknowledged: the acknowledged stub is in the store. -/
+theorem C11_fn_find_or_create_channel_persist (mono : Option Nat)
+    (r : ChannelId × Option ChannelSlot)
+    (h : Node.find_or_create_channel bh chs pol maxc keys dg secp mkStub nc self cid arc mono = .ok r)
+    (hnew : VlsModel.Rs.omapGet (chs self) cid = none) :
+    ∃ stub : ChannelStub WeakNode Secp256k1 InMemorySigner ChannelId,
+      r = (cid, some (mkStub stub)) ∧ stub.id0 = cid ∧ stub.blockheight = bh arc ∧
+      nc self.persister self.node_id stub = some () := by
+  refine ⟨{ node := dg arc, secp_ctx := secp, keys := keys cid 0 self, id0 := cid, blockheight := bh arc }, ?_, rfl, rfl, ?_⟩ <;>
+  · unfold Node.find_or_create_channel at h
+    cases hn : nc self.persister self.node_id { node := dg arc, secp_ctx := secp, keys := keys cid 0 self, id0 := cid, blockheight := bh arc } <;>
+    cases mono <;>
+    simp only [hnew, hn, Node.get_state, Node.get_id, VlsModel.Rs.unwrap, VlsModel.Rs.fail, VlsModel.Rs.panic, bind, Except.bind, pure, Except.pure] at h <;>
+    (repeat (split at h <;> try cases h)) <;> simp_all
+
+/-- non-vacuity: mark at 3, dbid 4, room in the map: the stub (id0 = 4, block height 7) is written and returned -/
+example :
+    let node : Node Nat (Option (ChannelStub Nat Nat Nat Nat)) Nat Nat := { channels := [], persister := 0, state := ⟨3⟩, node_id := 9 }
+    Node.find_or_create_channel (fun _ => 7) (fun n => n.channels) (0 : Nat) (fun _ => 2) (fun _ _ _ => 0) (fun _ => 0) (0 : Nat)
+      some (fun _ _ _ => some ()) node 4 node (some 4)
+      = .ok (4, some (some { node := 0, secp_ctx := 0, keys := 0, id0 := 4, blockheight := 7 })) := by
+  intro node; rfl
+
+end NewChannel
+
 end VlsModel.Props.C11Fn
